@@ -348,8 +348,36 @@ def prove_tree_relies(src_root, ex: Explorer):
             ob.name = 'C14.tree.' + ob.name[4:]
 
 
+def prove_reply_connection(src_root, ex: Explorer):
+    """The reply is handed to Network.send_peer_messages(asker, ...), which writes on an ACTIVE MESSAGING connection of that user.  The
+    asker may also be our child or parent (a distributed connection to the same user) or be transferring a file: the selection
+    get_active_peer_connections(user, type) must return exactly the registered connections of that user AND that type that are
+    connected and established - a reply framed as a peer message on a distributed connection is garbage to the asker."""
+    NETM = 'network.network'
+
+    def path(ctx: Ctx):
+        it = mk(src_root, ctx)
+        cstate = cls(it, CONN, 'ConnectionState')
+        pstate = cls(it, CONN, 'PeerConnectionState')
+
+        def conn(label, user, typ, state='CONNECTED', pst='ESTABLISHED'):
+            return Stub(label, username=user, connection_type=typ, state=enum(it, CONN, 'ConnectionState', state),
+                        connection_state=enum(it, CONN, 'PeerConnectionState', pst))
+        want_typ = ['P', 'D'][ctx.choose(2, 'type')]
+        regs = [conn('asker messaging', 'asker', 'P'), conn('asker distributed', 'asker', 'D'), conn('asker file', 'asker', 'F', pst='TRANSFERRING'),
+                conn('asker messaging closed', 'asker', 'P', state='CLOSED'), conn('asker messaging not initialised', 'asker', 'P', pst='AWAITING_INIT'),
+                conn('other messaging', 'other', 'P'), conn('other distributed', 'other', 'D')]
+        net = new(it, NETM, 'Network', peer_connections=list(regs))
+        r = it.call(it.getattr(net, 'get_active_peer_connections'), ['asker', want_typ], {})
+        got = [c._name for c in (r if isinstance(r, list) else list(it.iterate(r)))]
+        want = ['asker messaging'] if want_typ == 'P' else ['asker distributed']
+        ctx.prove(f'C14.reply.connection-selection[type={want_typ}]', got == want,
+                  f'active connections of type {want_typ} for the asker: {got}, expected {want}')
+    ex.run(path, 'reply-connection')
+
+
 def items(src_root, tier):
-    return [('tree', None)] + [('forward', k) for k in CARRIERS] + [('queue', None), ('reply', None), ('fanout', None), ('site', None)] + [('answer', k) for k in ANSWERERS]
+    return [('tree', None)] + [('forward', k) for k in CARRIERS] + [('queue', None), ('reply', None), ('reply-connection', None), ('fanout', None), ('site', None)] + [('answer', k) for k in ANSWERERS]
 
 
 def run_item(src_root, item, tier):
@@ -363,6 +391,8 @@ def run_item(src_root, item, tier):
             prove_queue_messages(src_root, ex)
         elif kind == 'reply':
             prove_reply(src_root, ex)
+        elif kind == 'reply-connection':
+            prove_reply_connection(src_root, ex)
         elif kind == 'fanout':
             prove_fanout(src_root, ex)
         elif kind == 'site':
@@ -378,5 +408,6 @@ def run_item(src_root, item, tier):
     res.functions.update([f'{DN}:DistributedNetwork.{c["handler"]}' for c in CARRIERS.values()])
     res.functions.update([f'{SM}:SearchManager.{c["handler"]}' for c in ANSWERERS.values()])
     res.functions.update([f'{DN}:DistributedNetwork.send_messages_to_children', f'{DN}:DistributedNetwork._on_peer_connection_initialized', f'{CONN}:DataConnection.queue_messages',
-                          f'{CONN}:DataConnection.queue_message', f'{SM}:SearchManager._query_shares_and_reply'])
+                          f'{CONN}:DataConnection.queue_message', f'{SM}:SearchManager._query_shares_and_reply',
+                          'network.network:Network.get_active_peer_connections', 'network.network:Network.get_peer_connections'])
     return res
